@@ -2,7 +2,11 @@
 
 package starlark
 
-import "go.starlark.net/internal/compile"
+import (
+	"unsafe"
+
+	"go.starlark.net/internal/compile"
+)
 
 // VerifFrozen reports the frozen flag of a list, dict, set or function
 // (read-only). ok is false for any other value.
@@ -23,3 +27,26 @@ func VerifFrozen(v Value) (frozen, ok bool) {
 // VerifLNTDecoded reports whether the line-number table of fn's Funcode has
 // been decoded (read-only, unsynchronised: for sequential use).
 func VerifLNTDecoded(fn *Function) bool { return compile.VerifLNTDecoded(fn.funcode) }
+
+// VerifHeader returns a copy of the bytes of the Go object behind a list, dict,
+// set or function (the List / hashtable / Function struct itself, not what it
+// points to), and the offsets of the frozen flag and of the iterator count in
+// it (-1 if the kind has none). Read-only; for observing which operations write
+// to an object. ok is false for any other value.
+func VerifHeader(v Value) (b []byte, frozenOff, iterOff int, ok bool) {
+	switch v := v.(type) {
+	case *List:
+		return verifBytes(unsafe.Pointer(v), unsafe.Sizeof(*v)), int(unsafe.Offsetof(v.frozen)), int(unsafe.Offsetof(v.itercount)), true
+	case *Dict:
+		return verifBytes(unsafe.Pointer(&v.ht), unsafe.Sizeof(v.ht)), int(unsafe.Offsetof(v.ht.frozen)), int(unsafe.Offsetof(v.ht.itercount)), true
+	case *Set:
+		return verifBytes(unsafe.Pointer(&v.ht), unsafe.Sizeof(v.ht)), int(unsafe.Offsetof(v.ht.frozen)), int(unsafe.Offsetof(v.ht.itercount)), true
+	case *Function:
+		return verifBytes(unsafe.Pointer(v), unsafe.Sizeof(*v)), int(unsafe.Offsetof(v.frozen)), -1, true
+	}
+	return nil, -1, -1, false
+}
+
+func verifBytes(p unsafe.Pointer, n uintptr) []byte {
+	return append([]byte(nil), unsafe.Slice((*byte)(p), int(n))...)
+}
